@@ -140,3 +140,12 @@ Theorem C02_source_random_iteration_feasible : forall sp cons rrp_m rrp_e body f
   nan_free (cg_tape self) -> g_core_random_iteration sp cons rrp_m rrp_e body fuel self = Ok (s', p) -> feasible sp cons p = Ok true.
 Proof. intros sp cons rm re body fuel self s' p Hb Hn H. destruct (source_random_iteration_ok sp cons rm re body fuel self s' p Hb Hn H) as [[_ A] _]. exact A. Qed.
 Print Assumptions C02_source_random_iteration_feasible.
+
+Require Import InitGen InitTie.
+(* the random initial positions GENERATED from init_positions.py (_init_random_search, also used by _fill_rest_random and
+   add_n_random_init_pos): exactly n of them, each in the box and feasible *)
+Theorem C02_source_random_inits_feasible : forall sp cons fuel self n s' l,
+  g_Initializer_init_random_search sp cons fuel self n = Ok (s', l) ->
+  length l = Z.to_nat n /\ Forall (emit_ok sp cons) l /\ tape_cfg self s'.
+Proof. exact init_random_search_spec. Qed.
+Print Assumptions C02_source_random_inits_feasible.
